@@ -94,7 +94,84 @@ def p_self_identity(e, atm):
     e.explore(prog, 'self_identity')
 
 
-PROGRAMS = [('p_layer_mapping', None)] + [('p_block_mapping', (s, t)) for s in (0, 1, 2) for t in (0, 1, 2) if not (s in (1, 2) and t == 0)] + \
+def p_transfer_incons(e, arg):
+    """t2incon.transfer_from (real method) on two one-column record geometries with an explicit
+    mapping: every underground target block receives exactly the state of its mapped source block,
+    the target atmosphere block(s) follow the 3x3 table (copy / average / broadcast / per column /
+    default [1.013e5, 20]), the key set is exactly the target's blocks, the source is not altered."""
+    satm, tatm = arg
+    tag = '[source atm%d,target atm%d]' % (satm, tatm)
+    def prog(e):
+        src, tgt = _two_geos(e, satm, tatm)
+        scol = make_col(e, src, '  a', 's')
+        e.assume(scol.fields['_surface'] > src.fields['layerlist'][1].fields['bottom'])      # full column: 3 blocks
+        tcol = make_col(e, tgt, '  a', 't')
+        e.assume(tcol.fields['_surface'] > tgt.fields['layerlist'][1].fields['bottom'])
+        for g in (src, tgt):
+            e.call(e.get_function('mulgrids.mulgrid.set_column_num_layers'), [g, g.fields['columnlist'][0]])
+            e.call(e.get_function('mulgrids.mulgrid.setup_block_name_index'), [g])
+        m = e.load_module('t2incons').globals
+        sinc = Obj(m['t2incon']); tinc = Obj(m['t2incon'])
+        for o in (sinc, tinc):
+            o.fields.update(simulator='TOUGH2', read_function=None)
+            e.call(e.get_function('t2incons.t2incon.empty'), [o])
+        svals = {}
+        for k, bn in enumerate(src.fields['block_name_list']):
+            var = [e.sym_real('s%d_%d' % (k, j)) for j in range(2)]
+            svals[bn] = var
+            e.call(e.get_function('t2incons.t2incon.add_incon'), [sinc, e.call(m['t2blockincon'], [list(var), bn, e.sym_real('spor%d' % k)])])
+        snapshot = dict((bn, (list(sinc.fields['_block'][bn].fields['variable']), sinc.fields['_block'][bn].fields['porosity'], sinc.fields['_block'][bn].fields['block'])) for bn in svals)
+        order0 = [b.fields['block'] for b in sinc.fields['_blocklist']]
+        sn, tn = src.fields['block_name_list'], tgt.fields['block_name_list']
+        natm_s = {0: 1, 1: 1, 2: 0}[satm]; natm_t = {0: 1, 1: 1, 2: 0}[tatm]
+        # an arbitrary (symbolic choice of) mapping of underground target blocks onto underground source blocks
+        mapping = {}
+        for k, bn in enumerate(tn[natm_t:]):
+            c = e.sym_int('map%d' % k, 0, len(sn) - natm_s - 1)
+            for i in range(len(sn) - natm_s):
+                if e.branch(c == i):
+                    mapping[bn] = sn[natm_s + i]
+                    break
+        if natm_t and natm_s: mapping[tn[0]] = sn[0]
+        colmapping = {'  a': '  a'}
+        try:
+            e.call(e.get_function('t2incons.t2incon.transfer_from'), [tinc, sinc, src, tgt, mapping, colmapping])
+        except PyExc as ex:
+            e.fail('safety:transfer_from' + tag, 'raises %s: %s' % (ex.cls, ex.msg))
+            return
+        got = dict((b.fields['block'], b) for b in tinc.fields['_blocklist'])
+        e.prove(set(got) == set(tn) and len(tinc.fields['_blocklist']) == len(tn) and set(tinc.fields['_block']) == set(tn), 'post:exactly_the_target_blocks_receive_a_state' + tag)
+        for bn in tn[natm_t:]:
+            ok = bn in got and L.equals(e, list(got[bn].fields['variable']), svals[mapping[bn]]) is True and \
+                L.equals(e, got[bn].fields['porosity'], snapshot[mapping[bn]][1]) is True
+            e.prove(ok, 'post:underground_block_gets_the_state_of_its_mapped_source_block' + tag)
+        if natm_t:
+            a = got.get(tn[0])
+            if a is None:
+                e.prove(False, 'post:atmosphere_state_follows_the_table' + tag)
+            elif satm in (0, 1):
+                # one source column: copy of / average over the single source atmosphere block
+                e.prove(all(_val_eq(e, x, y) for x, y in zip(list(e.iterate(a.fields['variable'])), svals[sn[0]])), 'post:atmosphere_state_follows_the_table' + tag)
+            else:
+                e.prove([L.concretize(x) if hasattr(L, 'concretize') else x for x in e.iterate(a.fields['variable'])] == [101300, 20], 'post:atmosphere_state_follows_the_table' + tag)
+        # the source is unaltered
+        same = [b.fields['block'] for b in sinc.fields['_blocklist']] == order0
+        for bn, (var, por, blk) in snapshot.items():
+            cur = sinc.fields['_block'].get(bn)
+            same = same and cur is not None and cur.fields['block'] == blk and L.equals(e, list(cur.fields['variable']), var) is True and L.equals(e, cur.fields['porosity'], por) is True
+        e.prove(same, 'frame:source_initial_conditions_unaltered' + tag)
+    e.explore(prog, 'transfer_incons')
+
+
+def _val_eq(e, x, y):
+    r = L.equals(e, x, y)
+    if isinstance(r, bool):
+        return r
+    s = z3.Solver(); s.set('timeout', 10000); s.add(*e.pc); s.add(z3.Not(r))
+    return s.check() == z3.unsat
+
+
+PROGRAMS = [('p_transfer_incons', (s, t)) for s in (0, 1, 2) for t in (0, 1, 2)] + [('p_layer_mapping', None)] + [('p_block_mapping', (s, t)) for s in (0, 1, 2) for t in (0, 1, 2) if not (s in (1, 2) and t == 0)] + \
            [('p_self_identity', a) for a in (0, 1, 2)]
 
 
@@ -106,6 +183,29 @@ def _f(v, d):
 
 def replay(obname, model, result):
     m = model or {}
+    if result['program'] == 'p_transfer_incons':
+        satm, tatm = result['arg']
+        return ("import numpy as np\nfrom mulgrids import *\nfrom t2incons import *\n"
+                "satm, tatm = %d, %d\n"
+                "src = mulgrid().rectangular([10.], [10.], [5., 7., 9.], atmos_type=satm)\n"
+                "tgt = mulgrid().rectangular([10.], [10.], [4., 6.], atmos_type=tatm)\n"
+                "sinc = t2incon()\n"
+                "for k, b in enumerate(src.block_name_list): sinc[b] = [1.e5 + k, 20. + k]\n"
+                "before = [(b.block, list(b.variable), b.porosity) for b in sinc]\n"
+                "ns, nt = src.num_atmosphere_blocks, tgt.num_atmosphere_blocks\n"
+                "und_s, und_t = src.block_name_list[ns:], tgt.block_name_list[nt:]\n"
+                "mapping = dict((b, und_s[(2 * i + 1) %% len(und_s)]) for i, b in enumerate(und_t))\n"
+                "if ns and nt: mapping[tgt.block_name_list[0]] = src.block_name_list[0]\n"
+                "tinc = t2incon()\n"
+                "try:\n"
+                "    tinc.transfer_from(sinc, src, tgt, mapping, {'  a': '  a'})\n"
+                "    ok = tinc.blocklist is not None and set(tinc.blocklist) == set(tgt.block_name_list) and len(tinc.blocklist) == len(tgt.block_name_list)\n"
+                "    ok = ok and all(list(tinc[b].variable) == list(sinc[mapping[b]].variable) for b in und_t)\n"
+                "    if nt: ok = ok and list(tinc[tgt.block_name_list[0]].variable) == (list(sinc[0].variable) if ns else [1.013e5, 20.])\n"
+                "    ok = ok and before == [(b.block, list(b.variable), b.porosity) for b in sinc]\n"
+                "    detail = 'target blocks %%r got %%r' %% (tgt.block_name_list, [(b.block, list(b.variable)) for b in tinc])\n"
+                "except Exception as ex:\n"
+                "    ok, detail = False, '%%s: %%s' %% (type(ex).__name__, ex)\n") % (satm, tatm)
     if result['program'] == 'p_block_mapping' and 'z0' in m and 't_z0' in m:
         satm, tatm = result['arg']
         z0, b = _f(m['z0'], 0.), [_f(m['bottom%d' % i], -5. * i) for i in (1, 2, 3)]
